@@ -6,6 +6,8 @@ mod snapshot;
 mod status_bar;
 mod workspace_manager;
 
+#[cfg(feature = "verif")]
+use crate::verif_locks::{Mutex, RwLock};
 pub use client::ClientProxy;
 pub use client_id::{ClientId, get_client_id};
 use emmylua_code_analysis::EmmyLuaAnalysis;
@@ -17,8 +19,6 @@ pub use snapshot::ServerContextSnapshot;
 pub use status_bar::ProgressTask;
 pub use status_bar::StatusBar;
 use std::{collections::HashMap, future::Future, sync::Arc};
-#[cfg(feature = "verif")]
-use crate::verif_locks::{Mutex, RwLock};
 #[cfg(not(feature = "verif"))]
 use tokio::sync::{Mutex, RwLock};
 use tokio_util::sync::CancellationToken;
